@@ -19,7 +19,7 @@ def nontrivial(sc, log):
 def gen(chk, binary, tier):
     rng = chk.rng
     quick = tier == "quick"
-    n1, n2, n3 = (110, 110, 60) if quick else (2500, 2500, 1200)
+    n1, n2, n3 = (600, 600, 300) if quick else (4000, 4000, 2000)
     streams = []
     # (a) Get-only probes at every E / 2E boundary of every completion (probes never change the timeline)
     a = [cc.base_script(rng) for _ in range(n1)]
